@@ -34,3 +34,11 @@ const (
 	KEY_NOT_FOUND      SQLError = SQLError("key not found")
 	EXPECTATION_FAILED SQLError = SQLError("expectation failed")
 )
+
+// recovered turns a value caught by recover() into an error
+func recovered(r any) error {
+	if err, ok := r.(error); ok {
+		return err
+	}
+	return fmt.Errorf("%v", r)
+}
